@@ -4,6 +4,10 @@ From SV Require Import Wire.Bytes Wire.Prim Wire.Records C04.Model C04.Proofs.
 Import ListNotations.
 Open Scope Z_scope.
 
+(* [split] on conjunctions only ([repeat split] would also try eq_refl on the equations, by lazy conversion) *)
+Ltac conj := repeat match goal with |- _ /\ _ => split end.
+Ltac run := vm_compute; reflexivity.
+
 Definition T0 := 1600000000005000000.     (* a whole millisecond *)
 Definition mk (id : Z) (key value : option (list Z)) (hs : list header) (ts : Z) : pmsg :=
   mkPM id key value hs ts 1700000000123456789 0 0 false.
@@ -38,7 +42,7 @@ Example ex_offset_identifies : forall c, In c [gz08; gz10; plain10; zstd21] ->
     log_lookup 4294967339 (append_records 4294967337 (decoded_view r)) =
       Some (mkEntry (Some [107]) (Some []) [] (if v0_10 c then Some 1600000000003000000 else None)).
 Proof.
-  intros c [<-|[<-|[<-|[<-|[]]]]]; eexists; eexists; eexists; repeat split; (vm_compute; reflexivity).
+  intros c [<-|[<-|[<-|[<-|[]]]]]; eexists; eexists; eexists; conj; run.
 Qed.
 
 Example ex_headers :
@@ -47,7 +51,7 @@ Example ex_headers :
     map snd (append_records 7 (decoded_view r)) =
       [mkEntry None (Some [49]) [mkHeader (Some [104]) None; mkHeader (Some []) (Some [1; 2])] (Some T0);
        mkEntry (Some []) None [] (Some (T0 - 2000000))].
-Proof. cbv zeta. eexists; eexists; repeat split; (vm_compute; reflexivity). Qed.
+Proof. cbv zeta. eexists; eexists; conj; run. Qed.
 
 (* routing: writable partitions [1; 2] (partition 0 has no leader), the partitioner answers index 1: partition 2 on the
    first pass, kept on two retries whatever the metadata and the partitioner would say then *)
@@ -68,7 +72,7 @@ Example ex_guarded :
   held (0, 2) (bs_set (bp_run zstd21 healthy [BRecv (0, 2) syn_marker; BRecv (0, 2) (mk 1 None (Some [49]) [] T0); BDrop (0, 2);
                           BRecv (0, 2) (mk 2 None (Some [50]) [] T0); BRecv (0, 2) fin_marker; BRecv (0, 2) syn_marker;
                           BRecv (0, 2) (mk 2 None (Some [50]) [] T0)])) = [mk 2 None (Some [50]) [] T0].
-Proof. split; vm_compute; [repeat split; auto | reflexivity]. Qed.
+Proof. split; [vm_compute; conj; auto | run]. Qed.
 
 (* The refuted statement.  A chaser (fin) that reaches a broker worker which is neither closing nor retrying the
    partition goes on to buffer.add, is sent as a record with nil key and nil value, and the leader appends it: the log
@@ -81,7 +85,7 @@ Theorem marker_accepted_witness :
   held (0, 2) (bs_set st) = [fin_marker] /\
   exists x r, part_lookup (0, 2) (s_parts (bs_set st)) = Some x /\ build_part zstd21 x = Some r /\
     append_records 1004 (decoded_view r) = [(1004, mkEntry None None [] (Some 1600000000000000000))].
-Proof. cbv zeta. repeat split; try (vm_compute; reflexivity). eexists; eexists; repeat split; (vm_compute; reflexivity). Qed.
+Proof. cbv zeta. conj; try run. eexists; eexists; conj; run. Qed.
 
 Theorem buffer_data_only_refuted :
   ~ (forall c st evs, data_only st -> data_only (bp_run c st evs)).
